@@ -108,7 +108,7 @@ func str(t *rapid.T, alpha []rune, min, max int, label string) string {
 func Gen(t *rapid.T) Case {
 	alpha := alphabet(t)
 	c := Case{}
-	shape := rapid.SampledFrom([]string{"core", "core", "core", "core", "core", "core", "random", "random", "wide", "wide", "leftmerge", "leftmerge", "leftmerge", "leftmerge", "touching", "touching", "many"}).Draw(t, "shape")
+	shape := rapid.SampledFrom([]string{"core", "core", "core", "core", "core", "core", "random", "random", "wide", "wide", "leftmerge", "leftmerge", "leftmerge", "leftmerge", "touching", "touching", "many", "dups"}).Draw(t, "shape")
 	c.Shape = shape
 	var textParts []string
 	switch shape {
@@ -191,6 +191,15 @@ func Gen(t *rapid.T) Case {
 		c.Patterns = append(c.Patterns, a, a+a, b)
 		reps := rapid.SampledFrom([]int{130, 257, 300, 520}).Draw(t, "reps")
 		textParts = append(textParts, strings.Repeat(a, reps), b, strings.Repeat(a+b, reps/4))
+	case "dups":
+		// the same pattern inserted hundreds of times (around 256 and its multiples), next to a few others
+		a, b := str(t, alpha, 1, 3, "a"), str(t, alpha, 1, 3, "b")
+		reps := rapid.SampledFrom([]int{255, 256, 257, 512, 513, 300}).Draw(t, "dupReps")
+		c.Patterns = append(c.Patterns, b, a+b)
+		for i := 0; i < reps; i++ {
+			c.Patterns = append(c.Patterns, a)
+		}
+		textParts = append(textParts, a, b, a+b, a)
 	case "touching":
 		a, b := str(t, alpha, 1, 3, "a"), str(t, alpha, 1, 3, "b")
 		c.Patterns = append(c.Patterns, a, b, a+b)
